@@ -15,6 +15,7 @@ extern "C" int verif_sigaction(int signum, const struct sigaction* act, struct s
 #include "Watchdog.cc"
 #include "Time.cc"
 #include "Handler.cc"
+#include "globals.cc"
 #undef sigaction
 using namespace Parma_Polyhedra_Library;
 
